@@ -171,3 +171,96 @@ def check_semantics(log: List[dict], meta: Dict[str, Any]) -> Tuple[List[Viol], 
                 viols.append(('mts-requires-out-event-arguments-not-copied',
                               dict(detail, sent=call['args'], got=arr['d']['args'])))
     return viols, counts
+
+
+def check_facilities(log: List[dict], meta: Dict[str, Any], shape: str
+                     ) -> Tuple[List[Viol], Dict[str, int]]:
+    """C09: facility ownership follows the configured origin.  `shape` holds the letters of the
+    services the user's locator carried: p(ump), r(untime), x (an unrelated service)."""
+    viols: List[Viol] = []
+    counts = {'constructions': 1, 'constructed': 0, 'refused': 0, 'identity_comparisons': 0}
+    create = meta['origin'] == 'create'
+    constructed = any(r['kind'] == 'constructed' for r in log)
+    failed = [r for r in log if r['kind'] == 'construct_failed']
+    has_p, has_r = 'p' in shape, 'r' in shape
+    must_fail = (has_p or has_r) if create else not (has_p and has_r)
+    detail = {'origin': meta['origin'], 'shape': ''.join(sorted(shape))}
+    if must_fail:
+        counts['refused'] = 1 if failed else 0
+        if constructed or not failed:
+            viols.append(('construction-succeeded-with-wrong-facilities', detail))
+        return viols, counts
+    if not constructed:
+        viols.append(('construction-failed-with-proper-facilities',
+                      dict(detail, what=failed[0]['d'].get('what') if failed else None)))
+        return viols, counts
+    counts['constructed'] = 1
+    before = next((r['d'] for r in log if r['kind'] == 'locator_before'), None)
+    addr = next((r['d'] for r in log if r['kind'] == 'addresses'), None)
+    comp = next((r['d'] for r in log if r['kind'] == 'component_constructed'), None)
+    if before is None or addr is None or comp is None:
+        viols.append(('facility-observation-missing', detail))
+        return viols, counts
+    user_before = {k: v for k, v in before['user_services']}
+    user_after = {k: v for k, v in addr['user_services']}
+    comp_services = {k: v for k, v in comp['services']}
+    pump_key = next((k for k in comp_services if 'pump' in k), None)
+    rt_key = next((k for k in comp_services if 'runtime' in k), None)
+    counts['identity_comparisons'] += 1
+    if user_before != user_after:
+        viols.append(('user-locator-modified', dict(detail, before=sorted(user_before),
+                                                    after=sorted(user_after))))
+    if create:
+        lo, hi = addr['shell'], addr['shell'] + addr['shell_size']
+        counts['identity_comparisons'] += 4
+        if comp['locator'] != addr.get('shell_locator'):
+            viols.append(('component-not-constructed-with-the-shells-locator', detail))
+        if comp['locator'] == before['user_locator']:
+            viols.append(('component-constructed-with-the-prototype-locator', detail))
+        if pump_key is None or rt_key is None:
+            viols.append(('component-locator-lacks-dispatcher-or-runtime', detail))
+        else:
+            for key, label in ((pump_key, 'dispatcher'), (rt_key, 'runtime')):
+                if not lo <= comp_services[key] < hi:
+                    viols.append((f'{label}-not-owned-by-the-shell', detail))
+            if comp_services[pump_key] != addr.get('shell_pump') or \
+                    comp_services[rt_key] != addr.get('shell_runtime'):
+                viols.append(('locator-accessor-differs-from-components-locator', detail))
+            rest = {k: v for k, v in comp_services.items() if k not in (pump_key, rt_key)}
+            if rest != user_before:
+                viols.append(('component-locator-is-not-prototype-plus-facilities',
+                              dict(detail, extra=sorted(set(rest) - set(user_before)),
+                                   missing=sorted(set(user_before) - set(rest)))))
+    else:
+        counts['identity_comparisons'] += 3
+        if comp['locator'] != before['user_locator']:
+            viols.append(('component-not-constructed-with-the-users-locator', detail))
+        if comp_services != user_before:
+            viols.append(('component-locator-differs-from-users', detail))
+        posts = [r for r in log if r['kind'] == 'post']
+        counts['posts_seen'] = len(posts)
+        for rec in posts:
+            if rec['d']['pump'] != before['user_pump']:
+                viols.append(('dispatcher-is-not-the-users', detail))
+                break
+        execs = [r for r in log if r['kind'] == 'arrive' and r['disp']]
+        for rec in execs:
+            if rec['d'].get('pump') != before['user_pump']:
+                viols.append(('event-executed-on-a-foreign-dispatcher', detail))
+                break
+    return viols, counts
+
+
+def check_final(log: List[dict], expect_throw: bool, what: str) -> List[Viol]:
+    """C10: final construction throws iff something is unbound."""
+    ok = any(r['kind'] == 'final_ok' for r in log)
+    threw = [r for r in log if r['kind'] == 'final_threw']
+    if expect_throw and (ok or not threw):
+        return [('final-construction-missed-unbound-event', {'unbound': what})]
+    if expect_throw and threw and threw[0]['d'].get('type') != 'binding_error':
+        return [('final-construction-failed-with-other-error',
+                 {'unbound': what, 'what': threw[0]['d'].get('what')})]
+    if not expect_throw and not ok:
+        return [('final-construction-failed-although-all-bound',
+                 {'what': threw[0]['d'].get('what') if threw else None})]
+    return []
